@@ -10,7 +10,7 @@ from .. import exact as X
 MANIFEST = dict(
     technique="Lean 4 proof about ONE generic transliteration of day_frac/two_sum/two_product/split: (a) under the standard model of binary64 and astropy's error-free two_sum contract, the add/subtract/construct path returns an integer count, |count+frac-(v1+v2)| <= 2^-52 and |frac| <= 1/2+2^-49; (b) exact refinement for rn=id; (c) the real/imaginary axis algebra of from_angles (i*i=-1); (d) trig/exp depend on the fraction only — tied by BIT-EXACT comparison of the same Lean definitions run at hardware Float (and at an exact rational rn53 rounding model, cross-checked) with NumPy on every generated case, plus an exact-Fraction property oracle on every Phase operation and operand kind",
     level_text="kernel theorem for add/sub/neg/construct under explicit hypotheses (standard model, EFT contract); axis algebra and fraction-only trig fully proved; the multiply and divide paths are proved too (C07_dayfrac_mul: within 2^-51 of the exact product; C07_dayfrac_div: within 2^-50 of the exact quotient, for results up to 2^52-2, adding the error-free two_product contract) and validated bit-for-bit against the Lean Float/rn53 instances and against exact rational arithmetic at the property's 2^-52 bound on every case; operand-kind dispatch (never degrading to a single double) is validated on the full kind matrix, not proved",
-    level_note="PARTIAL: (1) IEEE-754 hardware satisfying the standard model and astropy's two_sum/two_product being error-free are hypotheses, validated on every run by the exact rn53 instance; (2) the proved mul/div constants (2^-51, 2^-50) are worst-case term-by-term bounds, looser than the 2^-52 the harness validates; floor-division/remainder and the ufunc dispatch table are validated, not proved. Trusted: Lean kernel + Mathlib, Lean compiler (Float ops = C doubles), hand model PbModel/DayFrac.lean tied bit-exactly",
+    level_note="PARTIAL: (1) IEEE-754 hardware satisfying the standard model and astropy's two_sum/two_product being error-free are hypotheses, validated on every run by the exact rn53 instance; (2) the proved mul/div constants (2^-51, 2^-50) are worst-case term-by-term bounds, looser than the 2^-52 the harness validates; floor-division/remainder: only the final exact settle step is proved (C07_floordiv_settle: an estimate within one of the true quotient is corrected to exactly floor(A/B)); that the rounded estimates are within one, and the ufunc dispatch table, are validated, not proved. Trusted: Lean kernel + Mathlib, Lean compiler (Float ops = C doubles), hand model PbModel/DayFrac.lean tied bit-exactly",
 )
 
 
@@ -29,7 +29,7 @@ EPS = F(1, 2 ** 52)
 class Prop(PropBase):
     id = "C07"
     lean_targets = ["PbProps.C07"]
-    theorems = ["Pb.C07." + t for t in ("C07_dayfrac_add", "C07_dayfrac_mul", "C07_dayfrac_div", "C07_exact_two_product", "C07_exact_refines", "C07_axis_mul", "C07_axis_div",
+    theorems = ["Pb.C07." + t for t in ("C07_dayfrac_add", "C07_dayfrac_mul", "C07_dayfrac_div", "C07_floordiv_settle", "C07_exact_two_product", "C07_exact_refines", "C07_axis_mul", "C07_axis_div",
                                         "C07_trig_frac_only")]
     trusted_base = ["PbModel/DayFrac.lean (generic transliteration; Float instance bit-compared with NumPy, rn53 instance "
                     "cross-checked)", "IEEE-754 binary64 round-to-nearest-even satisfies the standard model (hypothesis)",
